@@ -13,6 +13,7 @@ import (
 	"encoding/hex"
 	"encoding/json"
 	"fmt"
+	"io"
 	logslog "log/slog"
 	"os"
 	"os/exec"
@@ -52,7 +53,8 @@ type c12Spec struct {
 	Dests     int        `json:"destinations"`
 	Msg       string     `json:"msg"`
 	Custom    *c12Custom `json:"custom,omitempty"`
-	Mode      string     `json:"mode"` // production | testing
+	Mode      string     `json:"mode"`                   // production | testing
+	Prior     int        `json:"prior_panics,omitempty"` // Panic calls issued (and recovered) on the same logger before the call of the cell
 	Dir       string     `json:"dir,omitempty"`
 }
 
@@ -61,7 +63,7 @@ func (s c12Spec) canon() string {
 	if s.Custom != nil {
 		c = fmt.Sprintf("%d/%d", s.Custom.V, s.Custom.Treat)
 	}
-	return fmt.Sprintf("%s.%s sev=%d L=%d ni=%v ia=%v %s d=%d %s c=%s", s.Recv, s.Name, s.Sev, s.Level, s.NoInt, s.IntAlways, s.Format, s.Dests, s.Mode, c)
+	return fmt.Sprintf("%s.%s sev=%d L=%d ni=%v ia=%v %s d=%d %s c=%s p=%d", s.Recv, s.Name, s.Sev, s.Level, s.NoInt, s.IntAlways, s.Format, s.Dests, s.Mode, c, s.Prior)
 }
 
 // what the parent saw
@@ -177,6 +179,21 @@ func c12Child(args []string) {
 		e.SetColorMode(false)
 	default:
 		e.SetColorMode(true)
+	}
+	// the history of the logger: earlier Panic calls that the program recovered from (into a discarding
+	// destination; the destinations of the cell are attached afterwards)
+	if sp.Prior > 0 {
+		e.SetWriter(io.Discard).SetErrorWriter(io.Discard)
+		for i := 0; i < sp.Prior; i++ {
+			func() {
+				defer func() { fmt.Fprintf(journal, "prior %d recovered=%v\n", i, recover() != nil) }()
+				if sp.Recv == "pkg" {
+					slog.Panic("an earlier panic", "k", i)
+				} else {
+					e.Panic("an earlier panic", "k", i)
+				}
+			}()
+		}
 	}
 	var files []*os.File
 	for i := 0; i < sp.Dests; i++ {
@@ -539,7 +556,7 @@ func c12EntryPoints(r *Run, negSevs []int) (term, other []c12EP) {
 
 func runC12(r *Run) {
 	r.Coq("Require Import Verif.Model.Base Verif.Model.Terminate Verif.Corr.C12.", "case", "ok")
-	r.Rule = "one child process per cell: {entry point that can carry Panic/Fatal (Entry methods by reflection, LogAttrs/Logit/Log with both severities, package functions)} x {no-interrupt} x {interrupt-always} x {logger level} x {json, logfmt, colour} x {production = harness binary, testing = go test -c binary}; negative cells: every other severity incl. registered ones through every entry point that carries it; quick = seeded sample, thorough = full matrix; observed: exit status, recovered panic value, journal order, destination files; non-trivial = admitted Panic/Fatal; distinct by cell"
+	r.Rule = "one child process per cell: {entry point that can carry Panic/Fatal (Entry methods by reflection, LogAttrs/Logit/Log with both severities, package functions)} x {no-interrupt} x {interrupt-always} x {logger level} x {json, logfmt, colour} x {production = harness binary, testing = go test -c binary}; negative cells: every other severity incl. registered ones through every entry point that carries it; quick = seeded sample, thorough = full matrix; every third cell after one, every third after two Panic calls on the same logger that the program recovered from; observed: exit status, recovered panic value, journal order, destination files; non-trivial = admitted Panic/Fatal; distinct by cell"
 	bins := c12FindBins()
 	custom := []*c12Custom{{13, 4}, {12, -1}, {-5, -1}}
 	negSevs := []int{2, 3, 4, 5, 6, 7, 8, 9, 10, 11, 13, 12, -5}
@@ -635,6 +652,7 @@ func runC12(r *Run) {
 			cells[i].Format = formats[r.R.Intn(3)]
 		}
 		cells[i].Dests = 1 + r.R.Intn(2)
+		cells[i].Prior = i % 3
 		cells[i].Msg = fmt.Sprintf("c12 message %d of the cell", i)
 		cells[i].Dir = filepath.Join(r.Out, "cells", strconv.Itoa(i))
 	}
